@@ -4,6 +4,7 @@ import (
 	"bufio"
 	"encoding/json"
 	"fmt"
+	"io"
 	"log"
 	"net/url"
 	"os"
@@ -504,6 +505,7 @@ func WorkerMain(t *testing.T) {
 
 type worker struct {
 	cmd     *exec.Cmd
+	stdin   io.Closer
 	in      *bufio.Writer
 	out     *bufio.Reader
 	scratch string
@@ -570,7 +572,7 @@ func (e *Explorer) spawn() (*worker, error) {
 		return nil, err
 	}
 	pw.Close()
-	return &worker{cmd: cmd, in: bufio.NewWriter(stdin), out: bufio.NewReaderSize(pr, 1<<20), scratch: scratch}, nil
+	return &worker{cmd: cmd, stdin: stdin, in: bufio.NewWriter(stdin), out: bufio.NewReaderSize(pr, 1<<20), scratch: scratch}, nil
 }
 
 // Explore runs the scenario exhaustively for deviation bounds 0..maxBound (iterated). It returns
@@ -679,6 +681,19 @@ func (e *Explorer) putWorker(w *worker) {
 
 func (w *worker) kill() {
 	w.in.Flush()
+	if os.Getenv("VERIF_COVERDIR") != "" && w.stdin != nil {
+		// diagnostic builds (tools/coverage.sh): a killed process writes no coverage counters; end of input makes the
+		// worker leave on its own
+		w.stdin.Close()
+		done := make(chan struct{})
+		go func() { w.cmd.Wait(); close(done) }()
+		select {
+		case <-done:
+			os.Remove(w.scratch)
+			return
+		case <-time.After(5 * time.Second):
+		}
+	}
 	w.cmd.Process.Kill()
 	w.cmd.Wait()
 	os.Remove(w.scratch)
